@@ -317,6 +317,8 @@ func limitCases(quick bool) []limitCase {
 	return []limitCase{{"limit-1packet", -c, false}, {"limit-1", -1, false}, {"limit", 0, false}, {"limit+1", 1, false}, {"limit+1:partial-on-other-topic", 1, true}, {"limit+1packet", c, true}}
 }
 
+var limitAbort time.Time // a size-limit case that is still draining at this time is abandoned
+
 func runLimitCase(w *world, lc limitCase) (string, []finding, string) {
 	w.free = true
 	w.setup(1, nil)
@@ -338,6 +340,10 @@ func runLimitCase(w *world, lc limitCase) (string, []finding, string) {
 	defer func() { w.gcEvery = 0; w.wire = nil; runtime.GC() }()
 	for l.sc.VerifC18QueueLen(tX) > 0 { // the big message first, then whatever is left on other topics
 		w.drain(qid{0, tX})
+		if !limitAbort.IsZero() && time.Now().After(limitAbort) {
+			w.readInboxes()
+			return fmt.Sprintf("%s(%d bytes): abandoned after %d packets (deadline)", lc.name, size, w.drains), nil, "abandoned"
+		}
 	}
 	w.drainAll(0)
 	got := w.readInboxes()
@@ -370,7 +376,13 @@ func runLimitCases(r *mc.Run, w *world, deadline time.Time) (out []string) {
 			r.Note("size-limit case %s not run (less than 20 s left)", lc.name)
 			continue
 		}
+		limitAbort = deadline
 		desc, fs, obs := runLimitCase(w, lc)
+		limitAbort = time.Time{}
+		if obs == "abandoned" {
+			r.Exhaustive = false
+			r.Note("size-limit case %s", desc)
+		}
 		if len(fs) > 0 {
 			report(r, "limit:"+lc.name, fs, obs)
 		}
